@@ -18,7 +18,9 @@ Inductive action :=
 | AWrite (b : str)           (* resp.Write(b) *)
 | AAttr (k v : str)          (* req.SetAttribute(k, v) *)
 | ASee (k : str)             (* append the value of attribute k, as seen here, to the event log *)
-| APanic (msg : str).        (* panic(msg) *)
+| APanic (msg : str)         (* panic(msg) *)
+| ADelHeader (k : str).      (* resp.Header().Del(k): user code may drop a header the framework set (net/http does it
+                                for Content-Encoding when answering 304) *)
 
 Record fscript := {
   f_id : str;
@@ -107,6 +109,7 @@ Definition run_action (a : action) (s : rstate) : res :=
   | AAttr k v => Done (upd_attrs s (pset k v (st_attrs s)))
   | ASee k => Done (upd_log s (L "see:" ++ k ++ L "=" ++ attr_get k (st_attrs s)))
   | APanic m => Panicked m s
+  | ADelHeader k => Done (upd_hdr s (filter (fun kv => negb (str_eqb (fst kv) k)) (st_hdr s)))
   end.
 
 Fixpoint run_actions (l : list action) (s : rstate) : res :=
